@@ -21,7 +21,7 @@ FORBIDDEN = re.compile(r'\b(Admitted|admit|Axiom|Axioms|Parameter|Parameters|Con
 # the PRNG's f64 against Flocq's IEEE-754 formalisation), which rest on the standard library's axioms of the real numbers and classical logic:
 ALLOWED_AXIOMS = {'ClassicalDedekindReals.sig_not_dec', 'ClassicalDedekindReals.sig_forall_dec',
                   'FunctionalExtensionality.functional_extensionality_dep', 'Classical_Prop.classic'}
-AXIOM_USERS = {'C15': {'C15_gate_ieee', 'C15_draw_exact'}, 'C18': {'C18_f64_ieee'}}     # which property files may show them at all
+AXIOM_USERS = {'C15': {'C15_gate_ieee', 'C15_draw_exact', 'C15_draw_exact_prng'}, 'C18': {'C18_f64_ieee'}}     # which property files may show them at all
 
 
 class Broken(Exception):
